@@ -1,6 +1,6 @@
 # Human-written metadata per check for MANIFEST.json.
 ENGINES = [
-    {"name": "seqx", "path": "/verif/kit (bfs.go) + /verif/checks/*", "serves_properties": ["C02", "C03", "C12"],
+    {"name": "seqx", "path": "/verif/kit (bfs.go) + /verif/checks/*", "serves_properties": ["C02", "C03", "C11", "C12"],
      "kind_free_text": "sequential bounded-exhaustive / explicit-state explorer over the real objects (fresh object + replay per path, canonical state hash)"},
 ]
 
@@ -21,6 +21,13 @@ META = {
         "design_ref": "DESIGN.md §2 C03",
         "text": "All delivery histories of length 6 (thorough 7) over four 6-number alphabets (contiguous, straddling the 64-frame window edge twice, near 2^32) are delivered to the bare sequence handler, to real end-to-end frames sealed by A and unsealed at B (regular and priority class), and to real link frames; signed class: all words over 5 timestamps through the bare time handler and real signed frames. Each delivery is judged by a reference model (accepted set + maximum): never accepted twice; fresh and within 64 of the newest => accepted; signed => strictly increasing. Complete for the stated alphabets and length, which covers reordering, duplication and loss in every combination.",
         "note": "Numbers outside the alphabets are assumed to behave like those inside; the key-rollover zone (>= 0xFFFFFF00) is excluded here and covered by C15.",
+    },
+    "C11": {
+        "engine": "seqx",
+        "technique": "explicit-state BFS over operation sequences on the real routing table (virtual clock) with per-operation post-conditions and invariants",
+        "design_ref": "DESIGN.md §2 C11",
+        "text": "Breadth-first search over all operation sequences to depth 4-6 (thorough 5-7) in seven scenarios: a one-prefix table with limit 1 and a 25-op alphabet (peer adds as AddLink/announce build them, gossip adds with 2/3-hop paths and two delays, RemoveNextHop, RemoveDisconnected with/without peer list, Clean, +11min/+4h), the own-country/region bucket pair of a zero-marker country with limits shrunk to 1, the shipped configuration (32/64/1024) of four router address classes with Fill macro-ops so the real limits bind, and the default configuration. Each transition is a fresh real table + replay in a synctest bubble; states are deduplicated on (snapshot via VerifEntries, clock). Every operation is checked against its post-condition (added => present / not added => unchanged, removals remove exactly the named routes, Clean removes only expired or over-limit gossip routes and never a peer) and every state against the invariants (<=3 non-peer routes per destination, per-prefix bounds, exact best-first peer-first lookups for every probe address).",
+        "note": "Routes are restricted to system-producible shapes; address universes are small (5-8 addresses) except in the Fill scenarios; states reached only beyond the depth bound are not covered.",
     },
     "C12": {
         "engine": "seqx",
